@@ -1,7 +1,7 @@
 """C01 — well-formed datapoints are ingested exactly, however the byte stream is cut."""
 import struct
 
-from vp_lib.api import H, cover
+from vp_lib.api import H, cover, pick
 from vp_lib.carbonenv import make_receiver, drop_receiver, Recorder, quiet
 from vp_lib.shadow import shadow_module
 
@@ -104,13 +104,15 @@ def _frame_pickle(mod, n1, n2, two, c1, c2):
 def C01_frame_pickle(n1: int, n2: int, two: bool, c1: int, c2: int) -> bool:
   """
   pre: 0 <= n1 <= 3 and 0 <= n2 <= 3
-  pre: 0 <= c1 <= c2 <= 14
+  pre: two or n2 == 0
+  pre: 0 <= c1 <= c2 <= 4 + n1 + (4 + n2 if two else 0)
   post: __return__
   """
   return _frame_pickle(real_protocols, n1, n2, two, c1, c2)
 
 
 # ---- parsing: symbolic metric name, numeric text from a boundary table ---------------------------------
+NAMES = ['a', 'é', 'a.b', '\U0001F600x', 'x;t=v', 'ünï.cödé', 'a/b', 'nb']
 NUMS = ['0', '1', '42', '1.5', '-2.25', '1e3', '+7', '1E-12', '1e308', '1.7976931348623157e+308', '5e-324',
         'inf', '-inf', 'Infinity', '1700000060', '1700000060.75', '0.1', '00012', '3.', '.5', '4_2', '１２']
 TS_OK = [i for i, s in enumerate(NUMS) if float(s) >= 0 and float(s) != INF]
@@ -128,7 +130,7 @@ class _Encoded(object):
 
 
 def _parse(mod, kind, metric, vi, ti, lead, trail, second):
-  vs, ts = NUMS[vi], NUMS[TS_OK[ti % len(TS_OK)]]
+  vs, ts = pick(NUMS, vi), NUMS[pick(TS_OK, ti)]
   ws = ['', ' ', '\t', '  ']
   line = ws[lead] + metric + ' ' + vs + ws[1 + trail % 3] + ts + ws[trail]
   p = make_receiver({'line': mod.MetricLineReceiver, 'udp': mod.MetricDatagramReceiver}[kind], connect=(kind != 'udp'))
@@ -159,12 +161,31 @@ def C01_parse(udp: bool, metric: str, vi: int, ti: int, lead: int, trail: int, s
   """
   pre: 1 <= len(metric) <= 2
   pre: all(not c.isspace() for c in metric)
-  pre: 0 <= vi < len(NUMS) and 0 <= ti < len(TS_OK)
-  pre: 0 <= lead <= 3 and 0 <= trail <= 3
+  pre: vi == 3 or vi == 11
+  pre: ti == 0 or ti == 8
+  pre: 0 <= lead <= 1 and 0 <= trail <= 1
   pre: 0 <= second <= 5
   post: __return__
   """
+  # symbolic NAME (every non-whitespace code point), two fixed number spellings
   return _parse(SHADOW, 'udp' if udp else 'line', metric, vi, ti, lead, trail, second)
+
+
+def C01_parse_nums(udp: bool, ni: int, vi: int, ti: int, lead: int, trail: int, second: int) -> bool:
+  """
+  pre: 0 <= ni < len(NAMES)
+  pre: 0 <= vi < len(NUMS) and 0 <= ti < len(TS_OK)
+  pre: 0 <= lead <= 3 and 0 <= trail <= 3
+  pre: 0 <= second <= 5
+  pre: udp or second == 0
+  post: __return__
+  """
+  # symbolic NUMBER spelling / whitespace / batching, names from a table
+  return _parse(SHADOW, 'udp' if udp else 'line', pick(NAMES, ni), vi, ti, lead, trail, second)
+
+
+def replay_parse_nums(udp, ni, vi, ti, lead, trail, second):
+  return replay_parse(udp, NAMES[ni], vi, ti, lead, trail, second)
 
 
 def replay_parse(udp, metric, vi, ti, lead, trail, second):
@@ -193,8 +214,8 @@ def C01_parse_bytes(ni: int, vi: int, ti: int, udp: bool) -> bool:
   post: __return__
   """
   # real utf-8 bytes through the real decode (names from a table incl. non-ASCII and astral characters)
-  name = NAMES[ni]
-  vs, ts = NUMS[vi], NUMS[TS_OK[ti]]
+  name = pick(NAMES, ni)
+  vs, ts = pick(NUMS, vi), NUMS[pick(TS_OK, ti)]
   data = ('%s %s %s' % (name, vs, ts)).encode('utf-8')
   p = make_receiver(SHADOW.MetricDatagramReceiver if udp else SHADOW.MetricLineReceiver, connect=not udp)
   try:
@@ -215,8 +236,9 @@ PTS = [x for x in PNUM if x >= 0 and x != INF]
 
 
 def _pickle_entries(mod, n, m0, m1, m2, v0, v1, v2, t0, t1, t2):
-  names, vs, ts = [m0, m1, m2][:n], [v0, v1, v2][:n], [t0, t1, t2][:n]
-  entries = [(names[i], (PTS[ts[i]], PNUM[vs[i]])) for i in range(n)]
+  ms, vs, ts = [m0, m1, m2][:n], [v0, v1, v2][:n], [t0, t1, t2][:n]
+  names = [m if isinstance(m, str) else pick(NAMES, m) for m in ms]
+  entries = [(names[i], (pick(PTS, ts[i]), pick(PNUM, vs[i]))) for i in range(n)]
   p = make_receiver(mod.MetricPickleReceiver)
 
   class _U(object):
@@ -230,7 +252,7 @@ def _pickle_entries(mod, n, m0, m1, m2, v0, v1, v2, t0, t1, t2):
   finally:
     drop_receiver(p)
   cover('unpacked')
-  want = [(names[i], (float(PTS[ts[i]]), float(PNUM[vs[i]]))) for i in range(n)]
+  want = [(names[i], (float(pick(PTS, ts[i])), float(pick(PNUM, vs[i])))) for i in range(n)]
   if len(rec.items) != n:
     raise AssertionError('delivered %d of %d entries' % (len(rec.items), n))
   for (m, (t, v)), (wm, (wt, wv)) in zip(rec.items, want):
@@ -239,23 +261,37 @@ def _pickle_entries(mod, n, m0, m1, m2, v0, v1, v2, t0, t1, t2):
   return True
 
 
-def C01_pickle_entries(n: int, m0: str, m1: str, m2: str, v0: int, v1: int, v2: int, t0: int, t1: int, t2: int) -> bool:
+def C01_pickle_entries(n: int, m0: int, m1: int, m2: int, v0: int, v1: int, v2: int, t0: int, t1: int, t2: int) -> bool:
   """
   pre: 0 <= n <= 3
-  pre: len(m0) <= 2 and len(m1) <= 2 and len(m2) <= 2
-  pre: 0 <= v0 < len(PNUM) and 0 <= v1 < len(PNUM) and 0 <= v2 < len(PNUM)
-  pre: 0 <= t0 < len(PTS) and 0 <= t1 < len(PTS) and 0 <= t2 < len(PTS)
+  pre: 0 <= m0 < len(NAMES) and 0 <= m1 < len(NAMES) and 0 <= m2 < len(NAMES)
+  pre: 0 <= v0 < len(PNUM) and 0 <= v1 <= 1 and 0 <= v2 <= 1
+  pre: 0 <= t0 < len(PTS) and 0 <= t1 <= 1 and 0 <= t2 <= 1
   post: __return__
   """
   return _pickle_entries(SHADOW, n, m0, m1, m2, v0, v1, v2, t0, t1, t2)
+
+
+def C01_pickle_name(name: str, second: bool) -> bool:
+  """
+  pre: len(name) <= 2
+  post: __return__
+  """
+  # the metric name of a pickle entry reaches the pipeline untouched, whatever string it is
+  return _pickle_entries(SHADOW, 2 if second else 1, name, 1, 0, 4, 0, 0, 2, 1, 0)
+
+
+def replay_pickle_name(name, second):
+  return replay_pickle_entries(2 if second else 1, name, 1, 0, 4, 0, 0, 2, 1, 0)
 
 
 def replay_pickle_entries(n, m0, m1, m2, v0, v1, v2, t0, t1, t2):
   """Real module AND the real C codec: the entries go through pickle.dumps / SafeUnpickler.loads."""
   import pickle
   from carbon.util import SafeUnpickler
-  names, vs, ts = [m0, m1, m2][:n], [v0, v1, v2][:n], [t0, t1, t2][:n]
-  entries = [(names[i], (PTS[ts[i]], PNUM[vs[i]])) for i in range(n)]
+  ms, vs, ts = [m0, m1, m2][:n], [v0, v1, v2][:n], [t0, t1, t2][:n]
+  names = [m if isinstance(m, str) else pick(NAMES, m) for m in ms]
+  entries = [(names[i], (pick(PTS, ts[i]), pick(PNUM, vs[i]))) for i in range(n)]
   p = make_receiver(real_protocols.MetricPickleReceiver)
   try:
     with Recorder() as rec:
@@ -264,7 +300,7 @@ def replay_pickle_entries(n, m0, m1, m2, v0, v1, v2, t0, t1, t2):
   finally:
     drop_receiver(p)
   assert p.unpickler is SafeUnpickler
-  want = [(names[i], (float(PTS[ts[i]]), float(PNUM[vs[i]]))) for i in range(n)] * 3
+  want = [(names[i], (float(pick(PTS, ts[i])), float(pick(PNUM, vs[i])))) for i in range(n)] * 3
   return rec.items == want
 
 
@@ -274,29 +310,43 @@ _ASSUME = ['carbon.protocols executed as a shadow module with log statements rem
            'numeric text: table of boundary literals with symbolic index (float()/strtod is C code)']
 
 HARNESSES = [
+  H('C01_pickle_name', quick=dict(timeout=200), thorough=dict(timeout=600), covers=['unpacked'], replay='replay_pickle_name',
+    encodes=['carbon.protocols:MetricPickleReceiver.stringReceived'],
+    assumptions=_ASSUME + ['symbolic metric name of length <= 2 (any code points), fixed numbers, codec stub as in C01_pickle_entries']),
   H('C01_frame_line_step', quick=dict(timeout=200), covers=['delivered', 'buffered'],
     encodes=['carbon.protocols:MetricLineReceiver (delimiter, MAX_LENGTH) + twisted LineOnlyReceiver.dataReceived'],
     assumptions=_ASSUME + ['inductive step over the only state carried between calls (_buffer, <= 2 bytes) and a segment of <= 5 bytes with any delimiter placement']),
-  H('C01_frame_line_cuts', quick=dict(timeout=280, extra_pre=['n <= 5']), thorough=dict(timeout=900), covers=['cut'],
+  H('C01_frame_line_cuts', quick=dict(timeout=280, shards=[('n%d' % k, 'n == %d and mask < %d' % (k, 2 ** k)) for k in range(5)]),
+    thorough=dict(timeout=900, shards=[('n%d' % k, 'n == %d and mask < %d' % (k, 2 ** k)) for k in range(5)] +
+                  [('n%d_c%d' % (k, c), 'n == %d and mask < %d and c1 == %d' % (k, 2 ** k, c)) for k in (5, 6) for c in range(k + 1)]), covers=['cut'],
     encodes=['carbon.protocols:MetricLineReceiver + twisted LineOnlyReceiver.dataReceived'],
     assumptions=_ASSUME + ['streams of <= 5 (quick) / 6 (thorough) bytes, every delimiter mask, every pair of cut positions (3 segments)']),
-  H('C01_frame_pickle', quick=dict(timeout=280), covers=['framed'],
+  H('C01_frame_pickle', quick=dict(timeout=280, shards=[('one', 'not two'), ('two', 'two and n1 <= 1 and n2 <= 1')]),
+    thorough=dict(timeout=900, shards=[('one', 'not two')] + [('two_%d%d' % (a, b), 'two and n1 == %d and n2 == %d' % (a, b)) for a in range(4) for b in range(4)]), covers=['framed'],
     encodes=['carbon.protocols:MetricPickleReceiver + twisted Int32StringReceiver.dataReceived'],
     assumptions=_ASSUME + ['1-2 frames with payload lengths 0..3, two cut positions anywhere in the stream incl. inside the 4-byte length prefix']),
-  H('C01_parse', quick=dict(timeout=280, shards=[('line', 'not udp and second == 0'), ('udp1', 'udp and second <= 2'), ('udp2', 'udp and second >= 3')],
-                            extra_pre=['len(metric) == 1', 'lead <= 1', 'trail <= 1']),
-    thorough=dict(timeout=1200, shards=[('line', 'not udp and second == 0'), ('udp1', 'udp and second <= 2'), ('udp2', 'udp and second >= 3')]),
+  H('C01_parse', quick=dict(timeout=280, shards=[('line', 'not udp and second == 0'), ('udp1', 'udp and second <= 2')],
+                            extra_pre=['len(metric) == 1', 'vi == 3 and ti == 8', 'lead == 0']),
+    thorough=dict(timeout=1500, shards=[('line', 'not udp and second == 0'), ('udp1', 'udp and second <= 2'), ('udp2', 'udp and second >= 3')]),
     covers=['parsed'], replay='replay_parse',
     encodes=['carbon.protocols:MetricLineReceiver.lineReceived', 'carbon.protocols:MetricDatagramReceiver.datagramReceived',
              'carbon.protocols:MetricReceiver.metricReceived'],
     assumptions=_ASSUME + ['metric: symbolic str of 1 (quick) / <= 2 (thorough) characters, every code point that is not whitespace',
                            'utf-8 decode(encode(s)) == s assumed for the symbolic name (bytes stand-in); real bytes in C01_parse_bytes and in the replay']),
-  H('C01_parse_bytes', quick=dict(timeout=280), covers=['parsed'],
+  H('C01_parse_nums', quick=dict(timeout=280, extra_pre=['lead <= 1 and trail == 0', 'ni <= 1', 'vi % 2 == 0'],
+                                 shards=[('line', 'not udp')] + [('udp_s%d' % k, 'udp and second == %d' % k) for k in range(6)]),
+    thorough=dict(timeout=1500, shards=[('line', 'not udp')] + [('udp_s%d_l%d' % (k, l), 'udp and second == %d and lead == %d' % (k, l)) for k in range(6) for l in range(4)]),
+    covers=['parsed'], replay='replay_parse_nums',
+    encodes=['carbon.protocols:MetricLineReceiver.lineReceived', 'carbon.protocols:MetricDatagramReceiver.datagramReceived',
+             'carbon.protocols:MetricReceiver.metricReceived'],
+    assumptions=_ASSUME + ['%d number spellings x %d timestamp spellings x whitespace variants x line terminators x 1-2 lines per datagram, names from a table' % (len(NUMS), len(TS_OK))]),
+  H('C01_parse_bytes', quick=dict(timeout=280, shards=[('line', 'not udp'), ('udp', 'udp')], extra_pre=['vi % 3 == 0', 'ni % 2 == 1']), thorough=dict(timeout=900, shards=[('line', 'not udp'), ('udp', 'udp')]), covers=['parsed'],
     encodes=['carbon.protocols:MetricLineReceiver.lineReceived', 'carbon.protocols:MetricDatagramReceiver.datagramReceived'],
     assumptions=_ASSUME + ['names from a table of %d strings incl. non-ASCII and astral characters, encoded to real utf-8 bytes' % len(NAMES)]),
-  H('C01_pickle_entries', quick=dict(timeout=280, extra_pre=['n <= 2', 'len(m0) <= 1 and len(m1) <= 1']), thorough=dict(timeout=1200),
+  H('C01_pickle_entries', quick=dict(timeout=280, extra_pre=['n <= 2', 'm0 <= 3', 'm1 == 1 and v1 == 0 and t1 == 1'], shards=[('v%d' % k, 'v0 %% 3 == %d' % k) for k in range(3)]),
+    thorough=dict(timeout=1500, shards=[('n%d_v%d' % (k, v), 'n == %d and v0 %% 4 == %d' % (k, v)) for k in range(4) for v in range(4)]),
     covers=['unpacked'], replay='replay_pickle_entries',
     encodes=['carbon.protocols:MetricPickleReceiver.stringReceived'],
     assumptions=_ASSUME + ['C pickle codec: loads(dumps(x)) == x for plain data (stub returns the entry list; the replay goes through the real codec in protocols 0, 2, 5)',
-                           'entries: <= 2 (quick) / 3 (thorough), symbolic names of length <= 1 / 2, numbers from a table with symbolic indices']),
+                           'entries: <= 2 (quick) / 3 (thorough); names from a table; the first entry has symbolic table indices for both numbers, the others come from small tables (symbolic name: C01_pickle_name)']),
 ]
